@@ -136,7 +136,8 @@ def make(V, template, ncyc=3):
                 A = wrap(np.asarray(A, dtype=object))
                 if not symmetric:
                     V.assume(A[0, 1] != A[1, 0], "general class: not symmetric")
-                factor.register("eig", (wrap(np.asarray(W, dtype=object)), wrap(np.asarray(Q, dtype=object))))
+                factor.register("eig", (wrap(np.asarray(W, dtype=object)), wrap(np.asarray(Q, dtype=object)),
+                                        np.array(np.asarray(A), dtype=object, copy=True)))
             else:
                 A = np.asarray(A, dtype=float)
             sA.state = A
